@@ -90,9 +90,10 @@ def phase_a(seed, tier, i, st):
     n, pairs = oracles.pairs_of_triples(st["triples"])
     knotted = oracles.is_knotted(pairs)
     base = {"triples": st["triples"], "op": "dot_bracket"}
+    loglevel = cfg.choice(["off", "off", "INFO", "DEBUG"])
     if st["family"].startswith("nearladder"):
         steps = [dict(base, via=cfg.choice(["property", "argument"]), backend="real-cbc", fault={"kind": "ok"})]
-        return {"property": NAME, "family": st["family"], "steps": steps}
+        return {"property": NAME, "family": st["family"], "steps": steps, "loglevel": loglevel}
     steps = [dict(base, via="property", backend="sim-api", fault={"kind": "ok", "tie": 0})]
     if knotted:
         steps.append(dict(base, via="argument", backend="cbc-wrapper", fault={"kind": "ok", "tie": cfg.randrange(1 << 12)}))
@@ -129,7 +130,7 @@ def phase_a(seed, tier, i, st):
         steps.append(dict(obj, via="argument", backend=cfg.choice(["sim-api", "cbc-wrapper"]),
                           fault={"kind": "ok", "tie": cfg.randrange(1 << 12)}))
         steps.append(dict(obj, via="property", backend="sim-api", fault={"kind": "ok", "tie": cfg.randrange(1 << 12)}))
-    return {"property": NAME, "family": st["family"], "steps": steps}
+    return {"property": NAME, "family": st["family"], "steps": steps, "loglevel": loglevel}
 
 
 def tie_indexes(n_optima, cap):
@@ -195,7 +196,7 @@ def run_index(seed, tier, i, tmpdir):
     if knotted and n_opt > 1:
         ties = tie_indexes(n_opt, plan["tie_cap"])
         base = {"triples": st["triples"], "op": "dot_bracket", "via": "argument", "backend": "sim-api"}
-        run_b = {"property": NAME, "family": st["family"],
+        run_b = {"property": NAME, "family": st["family"], "loglevel": run_a.get("loglevel"),
                  "steps": [dict(base, fault={"kind": "ok", "tie": t}) for t in ties]}
         res_b = execute_run(run_b, tmpdir)
         digests.append(res_b["digest"])
@@ -285,6 +286,8 @@ def shrink_candidates(run, v):
         yield _with_step(run, focus, dict(step, via="argument"))
     if step.get("fault", {}).get("tie"):
         yield _with_step(run, focus, dict(step, fault=dict(step["fault"], tie=0)))
+    if run.get("loglevel", "off") != "off":
+        yield dict(run, loglevel="off")
     for t in shrink.structure_candidates(step["triples"]):
         if t:
             yield _with_step(run, focus, dict(step, triples=t))
